@@ -4,6 +4,7 @@ import (
 	"encoding/json"
 	"fmt"
 	"regexp"
+	"sort"
 	"strings"
 	"testing"
 
@@ -167,7 +168,7 @@ type c05job struct {
 
 func TestC05(t *testing.T) {
 	hx.Main(t, "C05", func(r *hx.Run) {
-		r.Rule = "workflow shapes: 1-5 jobs with a random needs DAG (scalar/list form, mixed case), per job 0-5 steps with ids placed at random (ids may coincide up to case across jobs), declared job outputs, a matrix (rows, include-only keys, exclude, or a row / include / whole matrix given by an expression), workflow_call and/or workflow_dispatch inputs, workflow_call secrets (declared / section absent) and outputs. One reference probe per line at positions where the context is available: steps.<id>[.outputs.x|.outcome|.conclusion] in run/env/if/with of steps, in job outputs and environment.url; needs.<job>[.result|.outputs.<n>]; matrix.<key>; inputs.<n>; secrets.<n>; jobs.<job>.outputs.<n>; defined and undefined names, dot and ['x'] form, random case. Oracle: scope model built with the shape. Non-trivial = shape with >= 2 jobs or >= 2 steps and at least one defined and one undefined probe; distinct = YAML text."
+		r.Rule = "workflow shapes: 1-5 jobs with a random needs DAG (scalar/list form, mixed case; jobs written in random order, so needed jobs may come later in the file), per job 0-5 steps with ids placed at random (ids may coincide up to case across jobs), declared job outputs, a matrix (rows, include-only keys, exclude, or a row / include / whole matrix given by an expression), workflow_call and/or workflow_dispatch inputs, workflow_call secrets (declared / section absent) and outputs. One reference probe per line at positions where the context is available: steps.<id>[.outputs.x|.outcome|.conclusion] in run/env/if/with of steps, in job outputs and environment.url; needs.<job>[.result|.outputs.<n>]; matrix.<key>; inputs.<n>; secrets.<n>; jobs.<job>.outputs.<n>; defined and undefined names, dot and ['x'] form, random case. Oracle: scope model built with the shape. Non-trivial = shape with >= 2 jobs or >= 2 steps and at least one defined and one undefined probe; distinct = YAML text."
 		r.Assumptions = []string{"probes are only placed where GitHub's availability table allows the context", "nested matrix value typing and jobs.<id>.result are not asserted", "inputs probes only when at least one input is declared"}
 		r.Check(t, "shapes", hx.N(2500, 60000), func(rt *rapid.T) {
 			c, nj, maxSteps := genC05Shape(rt, nil)
@@ -347,7 +348,19 @@ func genC05Shape(rt *rapid.T, extra func(g *c05gen)) (*c05Case, int, int) {
 	// ----- emit jobs
 	autoSecrets := []string{"github_token", "actions_step_debug", "actions_runner_debug"}
 	y.ln("jobs:")
-	for i, j := range jobs {
+	// jobs are written in a random order: a job may need a job defined further down
+	emitOrder := rapid.Permutation(func() []int {
+		ix := make([]int, len(jobs))
+		for k := range ix {
+			ix[k] = k
+		}
+		return ix
+	}()).Draw(g.t, "joborder")
+	if g.b("documentorder") {
+		sort.Ints(emitOrder)
+	}
+	for _, i := range emitOrder {
+		j := jobs[i]
 		y.ln("  %s:", g.spell(j.id))
 		if len(j.needs) == 1 && g.b("needsscalar") {
 			y.ln("    needs: %s", g.spell(jobs[j.needs[0]].id))
